@@ -54,6 +54,7 @@ func TestCheck(t *testing.T) {
 		"and, for unsigned data, through a real consensus component that is made to decide the value and stores it in a real DutyDB. " +
 		"prefix case = for every variant whose SSZ encoding starts with a value dependent byte (found by comparing encodings of several generated values), the values whose encoding starts with each JSON-like prefix ('{', white space + '{', '[', '\"', n/t/f, digit, '-', …), through all W1 oracles and the native wire context. " +
 		"sweep case = byte strings of every length 0..N (zeros / random / small header words) in one decoding context, plus ill-formed protobuf envelopes and raw frames for the parsigex handler. " +
+		"large case = one full (unblinded) deneb/electra/fulu proposal with k blobs (3..21), partially signed through a pair of real parsigex components (Broadcast → p2p.Send framing → stream handler with its read limit → subscriber) and unsigned through a real consensus component deciding it; differential oracle against the same proposal without blobs: size alone must not change how far the value gets. " +
 		"determinism case = one set (family by case index) built under 8 insertion orders on 8 goroutines; multi-entry unsigned sets additionally as 8 different wire encodings of the same value (entries ascending/descending/random, proto.Marshal, anypb.New) each of which must decode to an equal value and be admitted by the real consensus receive handler in a signed PRE-PREPARE; hashed like consensus hashes values, re-encoded by a receiver, and (half of the unsigned ones) decided by the real consensus component. non-trivial = at least one damaged input decoded without error and at least one was rejected; distinct = hash of the generated value")
 	r.Assume("a Byzantine cluster member holds a real share key, so a pure BLS mismatch (tbls.ErrSigNotVerified) is treated as passed by the verifier wrappers; every other verifier error ends the pipeline as in production")
 	r.Assume("operations are applied in production order; an operation returning an error ends the pipeline (the node drops the message there); after a panic the remaining operations of the same stage still run, later stages are not entered (unreachable in production)")
@@ -87,7 +88,12 @@ func TestCheck(t *testing.T) {
 	r.Require("prefix_values", int64(nPrefix)/2)
 	r.Require("prefix_value_dependent_variants", int64(r.N(1, 3))*3)
 
-	r.Cases(nCodec+nDet+nSweep+nPrefix, 0, func(c *kit.Case) {
+	// large values (full proposals with many blobs) over the real parsigex and consensus wire paths
+	nLarge := len(largeVersions) * len(largeBlobCounts(r.Thorough()))
+	r.Require("large_parsigex_sent", int64(nLarge)*2/3)
+	r.Require("large_consensus_sent", int64(nLarge)*2/3)
+
+	r.Cases(nCodec+nDet+nSweep+nPrefix+nLarge, 0, func(c *kit.Case) {
 		switch {
 		case c.Idx < nCodec:
 			codecCase(c, rg, vars[c.Idx%len(vars)])
@@ -95,8 +101,10 @@ func TestCheck(t *testing.T) {
 			determinismCase(c, rg)
 		case c.Idx < nCodec+nDet+nSweep:
 			sweepCase(c, rg, ctxs[(c.Idx-nCodec-nDet)%len(ctxs)])
-		default:
+		case c.Idx < nCodec+nDet+nSweep+nPrefix:
 			prefixCase(c, rg, vars[(c.Idx-nCodec-nDet-nSweep)%len(vars)])
+		default:
+			largeCase(c, rg, c.Idx-nCodec-nDet-nSweep-nPrefix)
 		}
 	})
 }
